@@ -34,12 +34,21 @@
       is a function of the bytes of the primary input, it depends on the command line and the
       secondary inputs only through the payload tuples, the digest does not collide on the
       inputs and payloads in play.
+
+  (D) about the protocol when the cache-file WRITER fails (`Gts/Model/CacheProtoFault.lean` = the
+      protocol of (B) joined with the C13 fault model): for all histories and all fault schedules
+      in which no `os.Remove` fails, every run shows the uncached bytes and status EXCEPT a run
+      whose tee `Write` fails — io.go fails the command's own write — and the invariant of (B)
+      survives (`transparent_under_faults_partial`, `no_bad_entry_under_faults_partial`); with a
+      failing `os.Remove` both are refuted by a two-run history (`…_full_refuted`), which the
+      harness replays on the binary.
 -/
 import Gts.Gen.Cli
 import Gts.Spec.CliTable
 import Gts.Model.CacheProto
 import Gts.Props.C13
 import Gts.Lemmas.KeyEncJson
+import Gts.Lemmas.CacheProtoFault
 namespace Gts.C14
 open Gts.Cache Gts.CacheProto Gts.Gen.Cli Gts.CliTable
 
@@ -566,5 +575,410 @@ example : (history encWorld emptyStore [toyRun false false, toyRun true false, t
       rcases c with ⟨a, b⟩
       cases b <;> simp_all [encWorld, toyWorld, toyExec])
     _ (inv_empty _)
+
+/-! ## (D) Writer faults
+
+`Gts/Model/CacheProtoFault.lean`: the protocol joined with the C13 fault model of the cache-file
+writer.  A run carries a fault schedule `Faults` — `os.Create` or the placeholder write of
+`CreateLevel`, the n-th `Write` of the tee, each of the five steps of `cache.File.Close`, and the three
+`os.Remove` calls whose result io.go ignores.  What the code defines (io.go, bug for bug):
+
+  * a failed `d.cache.Write` FAILS THE COMMAND'S OWN WRITE (`ioDelegate.Write` returns the error before
+    it touches the output; flate's error is sticky, so nothing reaches the output afterwards): the
+    user sees the chunks written before the failing call and the exit status of a body whose
+    writer failed (1 for all nineteen commands) although `--no-cache` exits 0;
+  * every other fault is SWALLOWED: `os.Create` failing (no tee), the placeholder write failing (the
+    name is removed, the tee goes on into the unlinked file), every error of `cache.Close()` (the
+    entry is removed) — output and status are those of the uncached run;
+  * the entry is discarded by `os.Remove`, whose result is ignored: when that fails too, a
+    finalised entry over a PREFIX of the stream stays (C13 `failed_close_entry_verifies`) and the
+    next run serves wrong bytes (`no_bad_entry_under_faults_full_refuted`; replayed on the binary by
+    the harness case `cli.faulthist … unremovable`).
+-/
+
+section faults
+
+/-- **What io.go does with the errors of the cache writer** (generated, literally): the tee hands
+`p` to the cache FIRST and returns its error without writing `p` to the output
+(`stepF`: a failed `Write` of the tee fails the command's write); after a failed `cache.Open`,
+`TryCache` removes the entry's NAME when `CreateLevel` returned a file and an error, arms the tee
+with whatever `CreateLevel` returned — `nil` when `os.Create` failed — and reports a plain miss;
+no result of `os.Remove` is looked at.  (With `close_removes_uncommitted`: the error of
+`cache.Close()` only decides about the removal.) -/
+theorem writer_errors_handling :
+    teeBody = ["if d.cache != nil { n, err := d.cache.Write(p); if err != nil { return n, err } }",
+      "n, err := d.outfile.Write(p)", "return n, err"] ∧
+    missBlock = ["f, err := cache.CreateLevel(dir, h, rsum, dsum, flate.BestSpeed)",
+      "if err != nil && f != nil { os.Remove(f.Name()) }", "d.cache = f", "return false, nil"] := by
+  decide
+
+variable (V : FWorld Cmd Input)
+
+/-- the hypotheses under faults: those of `transparent`, and the chunks of the body are its output -/
+structure FHyp : Prop where
+  base : Hyp V.toWorld
+  /-- the arguments of the body's `Write` calls, concatenated, are the bytes it writes -/
+  hchunks : ∀ c i, (V.chunks c i).flatten = (V.exec c i).out
+
+/-- **Without faults the model is the protocol of `CacheProto.lean`** (`closeOk = true`). -/
+theorem stepF_nofault (hc : ∀ c i, (V.chunks c i).flatten = (V.exec c i).out) (σ : Store)
+    (r : FRun Cmd Input) (hf : r.faults = {}) :
+    stepF V σ r = step V.toWorld σ (r.toRun true) := by
+  obtain ⟨cmd, input, toFile, nocache, usable, faults⟩ := r
+  simp only at hf
+  subst hf
+  have hm := missF_nofault V ⟨cmd, input, toFile, nocache, usable, {}⟩ rfl
+  simp only at hm
+  show stepF V σ ⟨cmd, input, toFile, nocache, usable, {}⟩
+    = step V.toWorld σ ⟨cmd, input, toFile, nocache, usable, true⟩
+  unfold stepF step
+  simp only
+  by_cases hb : (nocache || !usable || (V.exec cmd input).early) = true
+  · rw [if_pos hb, if_pos hb]
+  · rw [if_neg hb, if_neg hb]
+    cases ho : openAt V.H V.d σ (V.rsum input) (V.dsum cmd) with
+    | ok body => cases hw : V.inflate body <;> simp [hw]
+    | error e => simp only [hm, hc, Bool.and_true]
+
+/-- what a run shows **as the code defines**: the uncached observation, except for a run that tees
+into a cache file (`armed`) and whose schedule makes a `Write` of the tee fail — that run shows
+the chunks before the failing call and the status of the body whose write failed -/
+def expectF (σ : Store) (r : FRun Cmd Input) : Observed :=
+  if armed V σ r then
+    match surfaced V r with
+    | some k => faultObserved V r k
+    | none => (V.exec r.cmd r.input).observed
+  else (V.exec r.cmd r.input).observed
+
+/-- `expectF` along a history -/
+def expectHistF : Store → List (FRun Cmd Input) → List Observed
+  | _, [] => []
+  | σ, r :: rs => expectF V σ r :: expectHistF (stepF V σ r).1 rs
+
+/-- **One run under ANY fault schedule, in a directory satisfying the invariant**, shows exactly
+what the code defines (`expectF`): no hypothesis on the schedule — `os.Remove` may fail, too; the
+schedule of THIS run never makes it show anything but the uncached bytes or a surfaced write
+failure. -/
+theorem step_transparent_under_faults (hy : FHyp V) {σ : Store} (hi : Inv V.toWorld σ)
+    (r : FRun Cmd Input) : (stepF V σ r).2 = expectF V σ r := by
+  unfold stepF expectF armed
+  simp only
+  by_cases hb : (r.nocache || !r.usable || (V.exec r.cmd r.input).early) = true
+  · simp [hb]
+  · rw [if_neg hb]
+    cases ho : openAt V.H V.d σ (V.rsum r.input) (V.dsum r.cmd) with
+    | ok body =>
+      obtain ⟨c, i, hrs, hqs, hst, _, hinf⟩ := hi _ _ body (hy.base.hH _) (hy.base.hH _) ho
+      have he : V.exec c i = V.exec r.cmd r.input := hy.base.hkey c r.cmd i r.input hrs.symm hqs.symm
+      simp only [Bool.and_false, Bool.false_and, Bool.false_eq_true, if_false]
+      rw [hinf]
+      simp [Outcome.observed, ← he, hst]
+    | error e =>
+      cases hc : r.faults.create <;> simp [hb, missF_obs] <;> cases surfaced V r <;> rfl
+
+/-- **The invariant survives every fault schedule in which no `os.Remove` fails**: whatever fails
+in `CreateLevel`, in any `Write`, in any step of `Close`. -/
+theorem step_inv_under_faults (hy : FHyp V) {σ : Store} (hi : Inv V.toWorld σ) (r : FRun Cmd Input)
+    (hrm : r.faults.removeWorks = true) : Inv V.toWorld (stepF V σ r).1 := by
+  have key : (V.exec r.cmd r.input).early = false →
+      ∀ cf, Inv V.toWorld (Store.set σ (name V.H (V.rsum r.input) (V.dsum r.cmd)) (missF V r cf).1) := by
+    intro hearly cf
+    cases hm : (missF V r cf).1 with
+    | none => exact inv_remove V.toWorld hi _
+    | some disk =>
+      obtain ⟨hdisk, hcm, -⟩ := missF_kept V r cf hrm hm
+      intro rs qs body hr hq ho
+      by_cases hn : name V.H rs qs = name V.H (V.rsum r.input) (V.dsum r.cmd)
+      · have hrl : (V.rsum r.input).length = V.d := hy.base.hH _
+        have hql : (V.dsum r.cmd).length = V.d := hy.base.hH _
+        simp only [openAt, Store.set, hn, if_true] at ho
+        rw [hdisk, hy.hchunks, C13.finish_eq hy.base.hH V.deflate hrl hql] at ho
+        have hs := C13.open_sound ho
+        unfold finished at hs
+        simp only [List.append_assoc] at hs
+        have h1 := List.append_inj hs (hrl.trans hr.symm)
+        have h2 := List.append_inj h1.2 (hql.trans hq.symm)
+        have hbl : (V.H (V.deflate (V.exec r.cmd r.input).out)).length = (V.H body).length := by
+          rw [hy.base.hH, hy.base.hH]
+        have h3 := List.append_inj h2.2 hbl
+        refine ⟨r.cmd, r.input, h1.1.symm, h2.1.symm, hy.base.hcommit _ _ hcm, hearly, ?_⟩
+        rw [← h3.2]; exact hy.base.hcodec _
+      · rw [openAt_set_ne V.toWorld σ _ _ rs qs hn] at ho; exact hi rs qs body hr hq ho
+  unfold stepF
+  simp only
+  by_cases hb : (r.nocache || !r.usable || (V.exec r.cmd r.input).early) = true
+  · rw [if_pos hb]; exact hi
+  · rw [if_neg hb]
+    have hearly : (V.exec r.cmd r.input).early = false := by
+      cases h : (V.exec r.cmd r.input).early
+      · rfl
+      · exact absurd (by simp [h]) hb
+    split
+    · split
+      · split
+        · exact inv_remove V.toWorld hi _
+        · exact hi
+      · exact hi
+    · split
+      · exact hi
+      · exact key hearly none
+      · exact key hearly (some _)
+
+/-- the guard of the `…_partial` theorems on a history: no `os.Remove` of an entry being written fails -/
+def removesWork (runs : List (FRun Cmd Input)) : Bool := runs.all fun r => r.faults.removeWorks
+
+/-- **`no_bad_entry_under_faults`, the part that holds**: for ALL histories with ANY fault schedules
+in which no `os.Remove` fails (guard `removesWork`: `os.Create`, the placeholder write, every
+`Write` of the tee, the final flush, both seeks, the hashing read and the header write may fail, in
+any run, in any combination), the invariant "every valid entry is the complete output of a
+successful run with that key" holds after the history.
+
+Full statement (FALSE, `no_bad_entry_under_faults_full_refuted`): the same without `removesWork`.
+Missing: io.go ignores the result of `os.Remove`; when the removal of a discarded entry fails, the
+finalised prefix stays. -/
+theorem no_bad_entry_under_faults_partial (hy : FHyp V) : ∀ (runs : List (FRun Cmd Input)) {σ : Store},
+    Inv V.toWorld σ → removesWork runs = true → Inv V.toWorld (historyF V σ runs).1
+  | [], _, hi, _ => hi
+  | r :: rs, _, hi, hg => by
+    simp only [removesWork, List.all_cons, Bool.and_eq_true] at hg
+    exact no_bad_entry_under_faults_partial hy rs (step_inv_under_faults V hy hi r hg.1) hg.2
+
+/-- **`transparent_under_faults`, the part that holds**: for ALL histories of runs over a shared
+cache directory with ANY fault schedules in which no `os.Remove` fails, EVERY run shows the output
+bytes and the exit status of the command body run without cache, EXCEPT as the code defines
+(`expectF`): a run that tees into a cache file and whose `k`-th `Write` of the tee is the first
+with a fault shows the chunks before that call and exits with the status of a body whose write
+failed.  No other fault is visible in any run.
+
+Full statement (FALSE, `transparent_under_faults_full_refuted`): the same without `removesWork`. -/
+theorem transparent_under_faults_partial (hy : FHyp V) : ∀ (runs : List (FRun Cmd Input)) {σ : Store},
+    Inv V.toWorld σ → removesWork runs = true → (historyF V σ runs).2 = expectHistF V σ runs
+  | [], _, _, _ => rfl
+  | r :: rs, σ, hi, hg => by
+    simp only [removesWork, List.all_cons, Bool.and_eq_true] at hg
+    simp only [historyF, expectHistF]
+    rw [step_transparent_under_faults V hy hi r,
+      transparent_under_faults_partial hy rs (step_inv_under_faults V hy hi r hg.1) hg.2]
+
+/-- `expectHistF` when no write fault is scheduled among the calls the bodies make -/
+theorem expectHistF_no_write_fault : ∀ (runs : List (FRun Cmd Input)) (σ : Store),
+    (∀ r ∈ runs, surfaced V r = none) →
+    expectHistF V σ runs = runs.map fun r => (V.exec r.cmd r.input).observed
+  | [], _, _ => rfl
+  | r :: rs, σ, h => by
+    simp only [expectHistF, List.map_cons]
+    rw [expectHistF_no_write_fault rs _ (fun x hx => h x (List.mem_cons_of_mem _ hx))]
+    simp [expectF, h r (List.mem_cons_self ..)]
+
+/-- **Only a failed `Write` of the tee shows**: in a history whose schedules make no `Write` call of
+a body fail (and no `os.Remove`), every run shows the bytes and the status of the uncached run —
+whatever fails in `CreateLevel` (`os.Create`, the placeholder write) and in `Close` (the final
+flush, the seeks, the hashing read, the header write), in any run. -/
+theorem transparent_unless_write_fault (hy : FHyp V) (runs : List (FRun Cmd Input)) {σ : Store}
+    (hi : Inv V.toWorld σ) (hg : removesWork runs = true) (hw : ∀ r ∈ runs, surfaced V r = none) :
+    (historyF V σ runs).2 = runs.map fun r => (V.exec r.cmd r.input).observed := by
+  rw [transparent_under_faults_partial V hy runs hi hg, expectHistF_no_write_fault V runs σ hw]
+
+/-- **Which faults surface as a non-zero exit**: exactly a fault of a `Write` call the body makes,
+in a run that tees.  If the `k`-th `Write` is the first with a fault entry, the run shows the first
+`k` chunks — a prefix of the uncached output that lacks at least the `k`-th chunk — and the status
+of the body whose write failed; when the body heeds write errors (`hheed`: all nineteen commands
+return the error) that status is not 0, although the uncached run may exit 0. -/
+theorem write_fault_surfaces (hy : FHyp V) {σ : Store} (hi : Inv V.toWorld σ) (r : FRun Cmd Input)
+    (ha : armed V σ r = true) {k : Nat} (hk : surfaced V r = some k)
+    (hheed : ∀ c i j, j < (V.chunks c i).length → (V.onWriteError c i j).status ≠ 0) :
+    (stepF V σ r).2 = faultObserved V r k ∧ (stepF V σ r).2.status ≠ 0 ∧
+      k < (V.chunks r.cmd r.input).length ∧
+      (stepF V σ r).2.out ++ ((V.chunks r.cmd r.input).drop k).flatten = (V.exec r.cmd r.input).out := by
+  have h := step_transparent_under_faults V hy hi r
+  simp only [expectF, ha, hk, if_true] at h
+  have hlt : k < (V.chunks r.cmd r.input).length := firstFault_lt hk
+  refine ⟨h, ?_, hlt, ?_⟩
+  · rw [h]; exact hheed _ _ _ hlt
+  · rw [h, ← hy.hchunks]
+    simp only [faultObserved]
+    rw [← List.flatten_append, List.take_append_drop]
+
+/-- **A run whose write failed leaves no entry** (when `os.Remove` works): after it, `cache.Open`
+for its key fails — the next identical run starts over. -/
+theorem write_fault_leaves_no_entry (σ : Store) (r : FRun Cmd Input)
+    (ha : armed V σ r = true) {k : Nat} (hk : surfaced V r = some k)
+    (hrm : r.faults.removeWorks = true) :
+    openAt V.H V.d (stepF V σ r).1 (V.rsum r.input) (V.dsum r.cmd) = .error .notFound := by
+  have hnone : ∀ cf, (missF V r cf).1 = none := by
+    intro cf
+    cases hm : (missF V r cf).1 with
+    | none => rfl
+    | some disk =>
+      obtain ⟨-, -, hs⟩ := missF_kept V r cf hrm hm
+      rw [hs] at hk; cases hk
+  unfold armed at ha
+  unfold stepF
+  simp only
+  by_cases hb : (r.nocache || !r.usable || (V.exec r.cmd r.input).early) = true
+  · simp [hb] at ha
+  · rw [if_neg hb]
+    cases ho : openAt V.H V.d σ (V.rsum r.input) (V.dsum r.cmd) with
+    | ok body => simp [ho] at ha
+    | error e =>
+      cases hc : r.faults.create with
+      | osCreate => simp [hc] at ha
+      | works => simp only [hnone]; exact openAt_set_none V.toWorld σ _ _
+      | placeholder j => simp only [hnone]; exact openAt_set_none V.toWorld σ _ _
+
+/-! ### a toy world with chunks; the refutation
+
+Digest `toyH` (one byte: the sum), root sum `[7]`, data sum `[9]`, entry name `"10"`.  The body
+writes `[1, 2]` and `[3]` and exits 0; when a write fails it exits 1 without `Commit`.  Codec:
+`marker = true` — the stream of `w` is `w ++ [255]` and a stream without the end marker does not
+inflate (what a truncated deflate stream does: the reader delivers what it can decode, then fails);
+`marker = false` — the identity codec of the C13 witnesses. -/
+
+/-- toy `deflate`: the bytes followed by an end marker -/
+def markDeflate (w : Bytes) : Bytes := w ++ [255]
+
+/-- toy `inflate`: a stream that does not end in the marker is corrupt -/
+def markInflate (s : Bytes) : Option Bytes := if s.getLast? = some 255 then some s.dropLast else none
+
+def faultWorld (marker : Bool) : FWorld Unit Unit where
+  H := C13.toyH
+  d := 1
+  deflate := if marker then markDeflate else id
+  inflate := if marker then markInflate else some
+  inflatePrefix := fun s => if marker then s else []
+  exec := fun _ _ => ⟨[1, 2, 3], 0, true, false⟩
+  payload := fun _ => [9]
+  content := fun _ => [7]
+  chunks := fun _ _ => [[1, 2], [3]]
+  onWriteError := fun _ _ _ => ⟨1, false⟩
+
+/-- a run of the toy command under a schedule -/
+def faultRun (f : Faults) : FRun Unit Unit := ⟨(), (), false, false, true, f⟩
+
+/-- non-vacuity: both toy worlds meet every hypothesis of the fault theorems -/
+theorem faultWorld_hyp (marker : Bool) : FHyp (faultWorld marker) where
+  base := {
+    hH := C13.toyH_size
+    hcodec := by
+      intro w
+      cases marker
+      · rfl
+      · simp [faultWorld, markInflate, markDeflate]
+    hkey := fun _ _ _ _ _ _ => rfl
+    hcommit := fun _ _ _ => rfl }
+  hchunks := fun _ _ => rfl
+
+/-- … and the bodies heed write errors -/
+theorem faultWorld_heeds (marker : Bool) :
+    ∀ c i j, j < ((faultWorld marker).chunks c i).length → ((faultWorld marker).onWriteError c i j).status ≠ 0 := by
+  intro _ _ _ _; simp [faultWorld]
+
+/-- the schedule of the refutation: the second `Write` fails with 2 bytes of the stream on disk,
+and the `os.Remove` in `Close` fails -/
+def badSchedule : Faults := { writes := [none, some 2], rmClose := true }
+
+/-- what the faulty run leaves: `r ‖ q ‖ H [1,2] ‖ [1,2]` — a finalised entry over a prefix -/
+example : (stepF (faultWorld true) emptyStore (faultRun badSchedule)).1 "10" = some [7, 9, 3, 1, 2] := by
+  decide
+
+/-- **`no_bad_entry_under_faults` is FALSE when `os.Remove` can fail** (full statement: for all
+histories and ALL fault schedules the invariant holds afterwards).  One run: the second `Write` of
+the tee fails (2 of the 4 stream bytes are on disk), `cache.Close()` reports it — and still writes a
+header that verifies over the prefix (C13 `failed_close_entry_verifies`) —, `Close` calls `os.Remove`,
+which fails.  The entry `cache.Open` accepts afterwards is not the output of any run. -/
+theorem no_bad_entry_under_faults_full_refuted :
+    ¬ (∀ runs : List (FRun Unit Unit),
+        Inv (faultWorld true).toWorld (historyF (faultWorld true) emptyStore runs).1) := by
+  intro h
+  obtain ⟨c, i, -, -, -, -, hinf⟩ := h [faultRun badSchedule] [7] [9] [1, 2] rfl rfl (by decide)
+  cases c; cases i
+  revert hinf
+  decide
+
+/-- **`transparent_under_faults` is FALSE when `os.Remove` can fail**: the two-run history "fault in
+run 1, wrong bytes served in run 2".  Run 1 (schedule `badSchedule`) shows `[1, 2]` and exits 1 — as
+the code defines.  Run 2 has NO fault at all, so the code defines the uncached observation
+`[1, 2, 3]`, status 0 — but `cache.Open` accepts the entry run 1 left, the copy delivers `[1, 2]` and
+fails on the truncated stream, the body then runs uncached: `[1, 2, 1, 2, 3]`, status 0.
+(Replayed on the binary: harness case `unremovable` of `cli.faulthist`.) -/
+theorem transparent_under_faults_full_refuted :
+    (historyF (faultWorld true) emptyStore [faultRun badSchedule, faultRun {}]).2
+      = [⟨[1, 2], 1⟩, ⟨[1, 2, 1, 2, 3], 0⟩] ∧
+    expectHistF (faultWorld true) emptyStore [faultRun badSchedule, faultRun {}]
+      = [⟨[1, 2], 1⟩, ⟨[1, 2, 3], 0⟩] ∧
+    ¬ (∀ runs : List (FRun Unit Unit),
+        (historyF (faultWorld true) emptyStore runs).2 = expectHistF (faultWorld true) emptyStore runs) := by
+  have h1 : (historyF (faultWorld true) emptyStore [faultRun badSchedule, faultRun {}]).2
+      = [⟨[1, 2], 1⟩, ⟨[1, 2, 1, 2, 3], 0⟩] := by decide
+  have h2 : expectHistF (faultWorld true) emptyStore [faultRun badSchedule, faultRun {}]
+      = [⟨[1, 2], 1⟩, ⟨[1, 2, 3], 0⟩] := by decide
+  refine ⟨h1, h2, fun h => ?_⟩
+  have := h [faultRun badSchedule, faultRun {}]
+  rw [h1, h2] at this
+  revert this
+  decide
+
+/-- with a codec whose prefixes inflate (identity) the second run is a plain HIT on the prefix:
+`[1, 2]`, status 0 -/
+example : (historyF (faultWorld false) emptyStore [faultRun badSchedule, faultRun {}]).2
+    = [⟨[1, 2], 1⟩, ⟨[1, 2], 0⟩] := by decide
+
+/-- a fault of the final flush instead of a `Write` (C13 `failed_close_may_verify`): run 1 is
+transparent (`[1, 2, 3]`, status 0: the error of `cache.Close()` is swallowed), run 2 is not -/
+example : (historyF (faultWorld true) emptyStore
+      [faultRun { close := { flush := some 2 }, rmClose := true }, faultRun {}]).2
+    = [⟨[1, 2, 3], 0⟩, ⟨[1, 2, 1, 2, 3], 0⟩] := by decide
+
+/-- the other ignored `os.Remove` (C13 `create_error_must_be_heeded`): the placeholder write fails
+after 1 byte and the `os.Remove` in `TryCache` fails; every `Write` and `Close` return nil, the run
+commits, the entry stays — run 2 is a hit that shows `[3]` -/
+example : (historyF (faultWorld true) emptyStore
+      [faultRun { create := .placeholder 1, rmCreate := true }, faultRun {}]).2
+    = [⟨[1, 2, 3], 0⟩, ⟨[3], 0⟩] := by decide
+
+/-- the same schedules with a working `os.Remove`: both runs show the uncached bytes, except the
+run whose write failed — `transparent_under_faults_partial` instantiated -/
+example : (historyF (faultWorld true) emptyStore
+      [faultRun { writes := [none, some 2] }, faultRun { close := { flush := some 2 } },
+       faultRun { create := .placeholder 1 }, faultRun { create := .osCreate }, faultRun {}, faultRun {}]).2
+    = [⟨[1, 2], 1⟩, ⟨[1, 2, 3], 0⟩, ⟨[1, 2, 3], 0⟩, ⟨[1, 2, 3], 0⟩, ⟨[1, 2, 3], 0⟩, ⟨[1, 2, 3], 0⟩] := by
+  rw [transparent_under_faults_partial (faultWorld true) (faultWorld_hyp true) _ (inv_empty _) (by decide)]
+  decide
+
+/-- non-vacuity of `no_bad_entry_under_faults_partial`: after these six runs the directory holds the
+entry of the fifth, the first with no fault at all (the sixth is a hit) -/
+example : (historyF (faultWorld true) emptyStore
+      [faultRun { writes := [none, some 2] }, faultRun { close := { flush := some 2 } },
+       faultRun { create := .placeholder 1 }, faultRun { create := .osCreate }, faultRun {}, faultRun {}]).1 "10"
+    = some [7, 9, 5, 1, 2, 3, 255] := by decide
+
+/-- non-vacuity of `write_fault_surfaces` / `write_fault_leaves_no_entry`: the first run of that
+history tees, its second `Write` is the first to fail -/
+example : armed (faultWorld true) emptyStore (faultRun { writes := [none, some 2] }) = true ∧
+    surfaced (faultWorld true) (faultRun { writes := [none, some 2] }) = some 1 ∧
+    (faultRun { writes := [none, some 2] } : FRun Unit Unit).faults.removeWorks = true := by decide
+
+/-- non-vacuity of `transparent_unless_write_fault`: faults in `CreateLevel` and `Close` only -/
+example : (historyF (faultWorld true) emptyStore
+      [faultRun { close := { header := some 1 } }, faultRun { create := .placeholder 0, close := { seekStart := some 0 } }]).2
+    = [⟨[1, 2, 3], 0⟩, ⟨[1, 2, 3], 0⟩] :=
+  transparent_unless_write_fault (faultWorld true) (faultWorld_hyp true) _ (inv_empty _) (by decide)
+    (by decide)
+
+/-- a write fault surfaces even when the entry has been given up already: the placeholder write
+fails (the name is removed), the tee goes on into the unlinked file, its first `Write` fails — the
+command fails with no output, and nothing is left (harness case "placeholder fails, then a write") -/
+example : (stepF (faultWorld true) emptyStore (faultRun { create := .placeholder 1, writes := [some 0] })).2
+    = ⟨[], 1⟩ := by decide
+
+example : (stepF (faultWorld true) emptyStore (faultRun { create := .placeholder 1, writes := [some 0] })).1 "10"
+    = none := by decide
+
+/-- non-vacuity of `stepF_nofault` -/
+example : stepF (faultWorld true) emptyStore (faultRun {})
+    = step (faultWorld true).toWorld emptyStore ((faultRun {}).toRun true) :=
+  stepF_nofault (faultWorld true) (fun _ _ => rfl) _ _ rfl
+
+end faults
 
 end Gts.C14
